@@ -320,7 +320,7 @@ class Cache:
 FAULTS = ["err_big", "trunc_err", "trunc_close", "timeout", "close_now", "bad_len_small", "bad_len_big", "bad_len_type", "bad_type",
           "bad_version", "bad_flags", "dup_announce", "unknown_withdraw", "eod_session", "cr_session", "spurious_reset",
           "err_nodata", "err_unsupported_ver", "err_other", "unexpected_pdu", "prefix_len_big", "notify_inside", "garbage",
-          "announce_withdraw_same", "eod_v0_in_v1", "stop"]
+          "announce_withdraw_same", "eod_v0_in_v1", "stop", "downgrade_error"]
 
 
 def client_waiting(trace_lines):
@@ -514,6 +514,9 @@ def build_conversation(rnd, nex=6, fault_p=0.45, cfg=None, chunking=None, faults
             deliver(b"".join(alt))
         elif f == "err_unsupported_ver":
             deliver(error_pdu(rnd.choice([0, 0, 1, 2]), 4, q["raw"], b""))
+        elif f == "downgrade_error":
+            # "Unsupported Protocol Version" sent in the next lower version: the client downgrades and reconnects at once
+            deliver(error_pdu(max(0, cache.ver - 1), 4, q["raw"], b""))
         elif f == "err_other":
             deliver(error_pdu(cache.ver, rnd.choice([0, 1, 3, 5, 6, 7, 8, 99]), rnd.choice([b"", q["raw"]]), rnd.choice([b"", b"x" * 20])))
         elif f == "err_big":
